@@ -160,4 +160,41 @@ theorem select_select (F : Frame γ) (a b : List Name) (h : ∀ c, c ∈ b → c
   · rw [select_val_mem hc, select_val_mem hc, select_val_mem (h c hc)]
   · rw [select_val_not_mem hc, select_val_not_mem hc]
 
+/-! ### values of the rewritten expressions, per operator class -/
+
+/-- value of the rewritten `reset_index` expression (the new node's `drop` is `rw.drop`) -/
+def evalReset (R : ResetOp γ) (P : List Name) (rw : Rw) (F : Frame γ) : Frame γ :=
+  let inp := match rw.childs with
+    | [some s] => F.select s.toList
+    | _ => F
+  if rw.keep then (R.op rw.drop inp).select P else R.op rw.drop inp
+
+def evalSource (S : SourceOp γ) (P : List Name) (rw : Rw) : Frame γ :=
+  let r := match rw.childs with
+    | [some s] => S.read s.toList
+    | _ => S.read []
+  if rw.keep then r.select P else r
+
+def evalBin (B : BinOp γ) (P : List Name) (rw : Rw) (X Y : Frame γ) : Frame γ :=
+  match rw.childs with
+  | [l, r] => (B.op (selOpt l X) (selOpt r Y)).select P
+  | _ => (B.op X Y).select P
+
+/-- value of the rewritten `astype` expression: the new node's dtype keys are `rw.keys` -/
+def evalAsType (A : AsTypeOp γ) (P : List Name) (rw : Rw) (F : Frame γ) : Frame γ :=
+  if rw.gone then F.select P
+  else
+    let inp := match rw.childs with
+      | [some s] => F.select s.toList
+      | _ => F
+    if rw.keep then (A.op rw.keys inp).select P else A.op rw.keys inp
+
+theorem has_filter_iff {sel : Sel} {l : List Name} {c : Name} (h : sel.has c = true) :
+    (l.filter sel.has).contains c = l.contains c := filter_contains_of_pred h
+
+def evalMerge (M : MergeOp γ) (P : List Name) (rw : Rw) (X Y : Frame γ) : Frame γ :=
+  match rw.childs with
+  | [l, r] => (M.op (selOpt l X) (selOpt r Y)).select P
+  | _ => (M.op X Y).select P
+
 end Dx.Cols
